@@ -510,16 +510,19 @@ Proof.
   rewrite DPE in INV. unfold py_process_time_point_str. try code11_helpers_unfold.
   destruct (date_parse md utc local text) as [[[p f]|]|c] eqn:DP.
   - destruct INV as [x E]. ev. rewrite E. ev.
-    match goal with
-    | |- context [for_loop ?offn (s_assign ?tpn _) (map VStr offs) ?st] =>
-      pose proof (shift_all_stm md utc local (self_of utc) x tpn offn offs st p eq_refl eq_refl eq_refl) as L
-    end.
-    cbv zeta in L.
-    destruct (fold_left (shift_step md) offs (inl (Some p))) as [[q|]|c].
-    + destruct L as (st' & -> & G & K). ev. rewrite ?G, ?K by reflexivity. ev.
-      destruct pf as [[|ch s]|]; [exfalso; apply PF; reflexivity| |]; ev; fin_df.
-    + destruct L.
-    + destruct L as (e & -> & <-). reflexivity.
+    destruct offs as [|o r].
+    + ev. unfold for_loop. ev. cbn [fold_left]. destruct pf as [[|ch s]|]; [exfalso; apply PF; reflexivity| |]; ev; fin_df.
+    + cbn [map]. ev. change (VStr o :: map VStr r) with (map (@VStr xp dur) (o :: r)).
+      match goal with
+      | |- context [for_loop ?offn (s_assign ?tpn ?b) (map VStr (o :: r)) ?st] =>
+        pose proof (shift_loop md x _ tpn offn eq_refl eq_refl
+                      (shift_body md utc local (self_of utc) x tpn offn eq_refl) (o :: r) st p eq_refl) as L
+      end.
+      destruct (fold_left (shift_step md) (o :: r) (inl (Some p))) as [[q|]|c].
+      * destruct L as (st' & -> & G & K). ev. rewrite ?G, ?K by reflexivity. ev.
+        destruct pf as [[|ch s]|]; [exfalso; apply PF; reflexivity| |]; ev; fin_df.
+      * destruct L.
+      * destruct L as (e & -> & <-). reflexivity.
   - exfalso. exact (date_parse_not_none md utc local text DP).
   - destruct INV as (e & E & <-). ev. rewrite E. reflexivity.
 Qed.
@@ -570,6 +573,7 @@ Proof.
     destruct (date_parse md false local t2) as [[[p2 f2]|]|c2] eqn:P2;
       [|exfalso; exact (date_parse_not_none md false local t2 P2)|].
     + destruct I2 as [x2 E2]. ev. rewrite E1. ev. rewrite E2. ev.
+      try (progress unfold for_loop; ev).
       rewrite gen11_date_diff. unfold diff_exc.
       destruct (tp_cmp md p2 p1) as [c|]; [|reflexivity].
       destruct (cmp_op 1 c).
@@ -597,7 +601,7 @@ Proof.
   pose proof (res_parse_inv (py_date_parse (mops md utc local) (self_of utc) (VStr text))) as INV.
   rewrite DPE in INV. unfold py_process_time_point_str. try code11_helpers_unfold.
   destruct (date_parse md utc local text) as [[[p f]|]|c] eqn:DP.
-  - destruct INV as [x E]. ev. rewrite E. ev. cbn [fold_left].
+  - destruct INV as [x E]. ev. rewrite E. ev. try (progress unfold for_loop; ev). cbn [fold_left].
     destruct pf as [[|ch s]|]; [exfalso; apply PF; reflexivity| |]; ev; fin_df.
   - exfalso. exact (date_parse_not_none md utc local text DP).
   - destruct INV as (e & E & <-). ev. rewrite E. reflexivity.
